@@ -37,7 +37,7 @@ def attr_harnesses(tier):
     fns = ["yash_semantics::expansion::attr_fnmatch::apply_escapes", "yash_semantics::expansion::attr_fnmatch::to_pattern_chars"]
     return [Harness("c04_escapes_%d" % n, "%d expanded characters; value over all of Unicode, origin/quoted/quoting symbolic" % n, fns,
                     "quoted and backslash-escaped characters reach the matcher as literal pattern characters; quoting characters "
-                    "and escaping backslashes are dropped", timeout=900, mod=MATTR)
+                    "and escaping backslashes are dropped", timeout=900, mod=MATTR, cover_group="c04_escapes")
             for n in ((0, 1, 2, 3, 4) + ((5,) if tier == "thorough" else ()))]
 
 
